@@ -12,7 +12,8 @@ CRATE = "h_framing"
 ALL = {"Reorder", "Duplicate", "Drop", "Replay", "Foreign", "Mixed"}
 NOFORGE = {"Reorder", "Duplicate", "Drop", "Replay"}          # what an adversary without the keys can do to signed chunks
 BASE = dict(Chan=7, Chan2=9, Seq0=0, Req0=1000, MaxMsgs=4, MaxChunks=3, MaxMoves=1, Kinds=ALL, Responder="writer",
-            DevClientMerge=False, DevSeqPerMsg=False, DevAcceptEq=False)
+            Refuse=Tla("{}"), MaxRefused=0, DevClientMerge=False, DevSeqPerMsg=False, DevAcceptEq=False, DevCountRefused=False)
+REFUSE = Tla("{TooMany, TooLarge}")      # a request of 4 chunks (chunk limit 3), a request / response above max_message_size
 
 
 def consts(**kw):
@@ -58,6 +59,11 @@ def run(ctx):
     # quick: <= 4 messages, one move; thorough: <= 6 (chunking peer: 5) messages, two moves
     ctx.model_check("writer", "MCSeqNum", consts(MaxMsgs=4 if q else 6, MaxMoves=1 if q else 2), ["C12"], timeout=1500, workers=4)
     ctx.model_check("peer", "MCSeqNum", consts(Responder="peer", MaxMsgs=4 if q else 5, MaxMoves=1 if q else 2), ["C12"], timeout=1500, workers=4)
+    # messages refused by their sender (too many chunks, too large) anywhere in the history, followed by further messages
+    ref = dict(Refuse=REFUSE, MaxRefused=1 if q else 2, MaxMsgs=4, MaxMoves=1)
+    ctx.model_check("refusals", "MCSeqNum", consts(**ref), ["C12"], timeout=1500, workers=4)
+    ctx.model_check("dev_count_refused", "MCSeqNum", consts(DevCountRefused=True, Kinds=set(), MaxMoves=0, **{k: ref[k] for k in ("Refuse", "MaxRefused", "MaxMsgs")}),
+                    ["C12"], expect_violation="C12", workers=4)
     ctx.model_check("dev_seq_per_message", "MCSeqNum", consts(DevSeqPerMsg=True), ["C12"], expect_violation="C12", workers=4)
     ctx.model_check("dev_accept_equal", "MCSeqNum", consts(DevAcceptEq=True), ["C12"], expect_violation="C12", workers=4)
     ctx.model_check("dev_client_merge", "MCSeqNum", consts(Responder="peer", DevClientMerge=True), ["C12"], expect_violation="C12", workers=4)
@@ -78,11 +84,15 @@ def run(ctx):
     k = 3 if q else 4
     gen("writer_1move", none_w, consts(MaxMsgs=k))
     gen("peer_1move", none_p, consts(MaxMsgs=k, Responder="peer"))
+    # a refused message (thorough: two) at any position of a history of <= 3 (thorough: 4) sent messages; thorough also with one move
+    gen("refusals", none_w, consts(Refuse=REFUSE, MaxRefused=1 if q else 2, MaxMsgs=k, Kinds=set(), MaxMoves=0))
     if q:
         # the 4 message histories are sampled by simulation
         gen("writer_4msgs", none_w, consts(), simulate="num=100")
         gen("peer_4msgs", none_p, consts(Responder="peer"), simulate="num=100")
     else:
+        gen("refusals_1move", none_w, consts(Refuse=REFUSE, MaxRefused=1, MaxMsgs=3))
+        gen("refusals_peer", none_p, consts(Refuse=REFUSE, MaxRefused=1, MaxMsgs=3, Kinds=set(), MaxMoves=0, Responder="peer"))
         gen("signed_1move", sign_w, consts(Kinds=NOFORGE, MaxMsgs=3))
         gen("signed_peer_1move", sign_p, consts(Kinds=NOFORGE, MaxMsgs=3, Responder="peer"))
         # beyond the exhaustive bound: <= 6 messages, two moves, sampled by simulation
@@ -108,9 +118,10 @@ def run(ctx):
         ctx.add_violation("C12:%s" % v["clause"], "%s at step %d of case %s (%s)" % (v["clause"], v["i"], v["case"], c.get("gen")),
                           c, engine="seqnum")
     nsteps, ndrift, firsts = drift(all_cases, obs)
-    npresent = nemit = 0
+    npresent = nemit = nrefused = 0
     for line in open(obs):
         o = json.loads(line)
+        nrefused += o.get("ev") == "Send" and o.get("ok") is False
         npresent += o.get("ev") == "Present"
         nemit += len(o.get("emits", [])) if o.get("ev") == "Send" else 0
     nt, seen = 0, set()
@@ -129,7 +140,8 @@ def run(ctx):
     ctx.cov["rule"] = ("TLC model-checks SeqNum.tla with the monitor attached: every history of <= 4 (thorough: 6) messages (requests of 1..3 "
                        "chunks through the client SendBuffer, responses through the server MessageWriter or through a chunking peer) with "
                        "<= 1 (thorough: 2) adversary moves (Reorder, Duplicate, Drop, Replay of a delivered message, ForeignChannelId, "
-                       "MixedRequestIds) placed at any point; the same histories are generated (exhaustive for 3 (thorough: 4) messages / 1 "
+                       "MixedRequestIds) placed at any point, and histories in which a sender refuses a message (one chunk above its chunk limit, "
+                       "above its max_message_size) and then goes on sending; the same histories are generated (exhaustive for 3 (thorough: 4) messages / 1 "
                        "move, also on a signed channel in thorough; simulation for 4 messages (quick) and 6 messages / 2 moves) and replayed on the real SendBuffer, MessageWriter, "
                        "server TcpTransport::process_chunk, client TransportState and Chunker::validate_chunks/decode; "
                        "distinct by channel configuration and action sequence; non-trivial = an adversary move followed by a message presented to a receiver")
@@ -143,7 +155,10 @@ def run(ctx):
         c = all_cases[idx]
         ctx.sample({"gen": c.get("gen"), "cfg": c["cfg"],
                     "steps": [{k: s[k] for k in ("ev", "side", "n", "kind", "w", "m", "rcv", "acc") if k in s} for s in c["steps"][:30]]})
-    ctx.assumptions += ["histories run on an open channel (channel id 7, token 1); sequence numbers do not wrap (u32) within a history",
+    ctx.notes["messages_refused_by_sender"] = nrefused
+    ctx.assumptions += ["both senders are configured with max_chunk_count 3 and max_message_size 40000; a refused message leaves the "
+                        "SendBuffer / MessageWriter object in use (the real client transport closes the connection after a refused write)",
+                        "histories run on an open channel (channel id 7, token 1); sequence numbers do not wrap (u32) within a history",
                         "chunk headers are parsed back from the emitted bytes the way the receiver reads them (verify_and_remove_security "
                         "with a helper channel of the receiving role, then MessageChunk::chunk_info); forged headers (ForeignChannelId, "
                         "MixedRequestIds) only on the policy None channel; the secured channel of the thorough tier is Basic256Sha256 "
